@@ -81,6 +81,7 @@ type parkReq struct {
 	used    atomic.Bool
 	parked  chan struct{}
 	release chan struct{}
+	counted atomic.Bool // releasePark found the goroutine parked: it owes a releasing.Add(-1)
 }
 
 // World is one Processor under test together with everything the harness observes about it.
@@ -105,6 +106,7 @@ type World struct {
 	closeCalled   atomic.Bool
 	held          atomic.Bool // a goroutine is parked by the harness
 	heldN         atomic.Int32
+	releasing     atomic.Int32
 	inBody        atomic.Bool  // an Enqueue/Dequeue body has touched the channels but not yet logged its event
 	api           atomic.Int32 // Enqueue/Dequeue calls of the scripted scenarios that have not returned yet
 	inCb          atomic.Int32
@@ -256,6 +258,23 @@ func (w *World) maybePark(name string, args []any) {
 		w.held.Store(false)
 	}
 	w.add(Ev{Kind: "unpark"})
+	if req.counted.Load() {
+		w.releasing.Add(-1)
+	}
+}
+
+// releasePark lets a parked goroutine go on. Until that goroutine has actually resumed and logged
+// its `unpark`, the world is not stable: without this a loaded machine could log `quiet` between
+// the release and the resumption, with the loop still waiting for a lock the released goroutine
+// holds (a harness artefact, seen once on a fresh restore).
+func (w *World) releasePark(req *parkReq) {
+	select {
+	case <-req.parked:
+		req.counted.Store(true)
+		w.releasing.Add(1)
+	default:
+	}
+	close(req.release)
 }
 
 // hook is the verifhook callback: it records the lock-ordered events, tracks where the loop
@@ -377,6 +396,12 @@ func loopGoroutines(held bool) (n int, allBlocked bool) {
 
 // stable reports whether nothing will move without a new external action.
 func (w *World) stable() bool {
+	if w.releasing.Load() > 0 {
+		return false
+	}
+	if !w.held.Load() && w.api.Load() > 0 {
+		return false // an Enqueue/Dequeue call is still running and nothing holds it
+	}
 	_, blocked := loopGoroutines(w.held.Load())
 	return blocked
 }
